@@ -88,6 +88,11 @@ func (vm *VotingMachine) CollectVote(vote hotstuff.VoteMsg) {
 }
 
 func (vm *VotingMachine) verifyCert(cert hotstuff.PartialCert, block *hotstuff.Block) {
+	// a vote is the signature of exactly one replica; anything else cannot be combined with the other votes.
+	if sig := cert.Signature(); sig == nil || sig.Participants().Len() != 1 {
+		vm.logger.Info("vote is not signed by exactly one replica")
+		return
+	}
 	if err := vm.auth.VerifyPartialCert(cert); err != nil {
 		vm.logger.Infof("vote could not be verified: %v", err)
 		return
